@@ -110,7 +110,11 @@ def cmd_replay(path):
     with open(path) as f:
         rp = json.load(f)
     pid = rp["property"]
-    res = replay_scenario(pid, rp["scenario"])
+    if rp["scenario"].get("pre_batch"):
+        viols, _ = load_prop(pid).pre_batch("quick")
+        res = {"violations": viols, "digest": None}
+    else:
+        res = replay_scenario(pid, rp["scenario"])
     exp = rp["expect"]
     findings = core.load_known_findings()
     hit = [v for v in res["violations"] if v["oracle"] == exp["oracle"]]
@@ -229,7 +233,7 @@ def write_evidence(pid, tier, verif_seed, mod, b, violations, extra=None):
         "wall_s": round(b["wall"], 2),
         "violations": violations,
     }
-    d = os.path.join(core.VERIF_DIR, "evidence")
+    d = os.environ.get("VERIF_EVIDENCE_DIR") or os.path.join(core.VERIF_DIR, "evidence")  # env override: tooling only
     os.makedirs(d, exist_ok=True)
     with open(os.path.join(d, f"{pid}.json"), "w") as f:
         json.dump(ev, f, indent=1, sort_keys=True, default=core._default)
@@ -242,10 +246,31 @@ def cmd_check(pid, tier):
     workers = int(os.environ.get("VERIF_WORKERS", min(16, os.cpu_count() or 1)))
     max_runs = int(os.environ.get("VERIF_MAX_RUNS", getattr(mod, "MAX_RUNS", {}).get(tier, 10**9)))
     print(f"[{pid}] tier={tier} VERIF_SEED={verif_seed} budget={budget}s workers={workers}", flush=True)
+    pre_v, pre_stats = [], {}
+    if hasattr(mod, "pre_batch"):
+        pre_v, pre_stats = mod.pre_batch(tier)
     b = run_batch(pid, tier, verif_seed, budget, workers, max_runs)
+    b["stats"].merge(pre_stats)
     nviol = 0
     rc = 0
     lines = []
+    findings = core.load_known_findings()
+    for v in pre_v:
+        f = core.match_known(v, findings)
+        if f is not None:
+            b["known"].setdefault(f["id"], {"count": 0, "example_seed": -1, "what": f["what"], "property": f["property"]})["count"] += 1
+        else:
+            path = core.write_replay(pid, 0, {"pre_batch": True}, v, None, False)
+            ok, out = _fresh_replay(path)
+            nviol += 1
+            if ok:
+                lines.append(f"VIOLATION property={pid} replay={path}")
+                lines.append(f"  oracle={v['oracle']} detail={json.dumps(v['detail'], default=str)[:800]}")
+                rc = 1
+            else:
+                lines.append(f"HARNESS-ERROR: pre-batch violation did not reproduce:\n{out}")
+                rc = 2
+            break
     for k, v in sorted(b["known"].items()):
         lines.append(f"KNOWN-FINDING: property={v['property']} {k}: {v['what']} (matched {v['count']} runs, e.g. seed {v['example_seed']})")
     extra = {}
@@ -253,7 +278,7 @@ def cmd_check(pid, tier):
         from . import shrink
 
         u = b["unknown"][0]
-        nviol = len(b["unknown"])
+        nviol += len(b["unknown"])
         try:
             scn, v, dig, minimised = shrink.minimise(pid, u, budget_s=float(os.environ.get("VERIF_SHRINK_S", "120")))
             path = core.write_replay(pid, u["seed"], scn, v, dig, minimised)
@@ -291,6 +316,7 @@ def cmd_setup():
     import jaxtyping
 
     assert os.path.realpath(jaxtyping.__file__).startswith(os.path.realpath(core.REPO_DIR)), jaxtyping.__file__
+    assert os.path.realpath(core.REPO_DIR) == "/repo" or os.environ.get("VERIF_REPO"), core.REPO_DIR
     for pid in PROPS:
         try:
             load_prop(pid)
